@@ -20,6 +20,7 @@ import SshuttleModel.Props.C01
 import SshuttleModel.Lemmas.SockInv
 import SshuttleModel.Lemmas.Progress
 import SshuttleModel.Lemmas.Fixpoint
+import SshuttleModel.Lemmas.MeasureWorld
 import SshuttleModel.Props.C08
 import SshuttleModel.Props.C09
 import SshuttleModel.Spec.Quiet
@@ -765,6 +766,104 @@ theorem C02_no_stuck_state (w0 : World) (h0 : w0.flows = []) (hf : w0.cm.tooFull
       have h4 : e' = f.dst := by simpa using congrArg Flow.dst h2
       subst h1; subst h3; subst h4
       exact handler_fix_quiet _ _ _ (fs2 _ hp).1 hts hcbk _ rfl
+
+/-! ### Bounded work: every move of the loop that changes anything uses up some of a finite measure -/
+
+/-- One move of the select loop (a callback of any handler with any socket behaviour, any fault
+included; `pre_select`; the delivery of the next frame in either direction; dropping finished
+handlers) either leaves the world exactly as it was or strictly decreases `worldMu` — the weighted
+count of bytes still on their way, frames queued, flags still to be set and handlers still
+registered. -/
+theorem loop_step_dec (w : World) (st : Step) (hm : LoopMove st) :
+    Dec (worldMu w) (worldMu (w.step st)) (w.step st = w) := by
+  unfold World.step
+  cases hd : w.died with
+  | some msg => simp only [Option.isSome_some, ↓reduceIte]; right; constructor <;> first | rfl | trivial
+  | none =>
+    simp only [Option.isSome_none, Bool.false_eq_true, ↓reduceIte]
+    cases hd' : (w.stepRaw st).died with
+    | some msg =>
+      simp only [Option.isSome_some, ↓reduceIte]
+      left
+      simp only [worldMu, hd, Option.isSome_some, Option.isSome_none, Bool.false_eq_true, ↓reduceIte]
+      omega
+    | none =>
+      simp only [Option.isSome_none, Bool.false_eq_true, ↓reduceIte]
+      cases st with
+      | cb e i io =>
+        cases e
+        · exact cbC_dec w i io hd hd'
+        · exact cbS_dec w i io hd hd'
+      | pre e i =>
+        cases e
+        · exact preC_dec w i hd
+        · exact preS_dec w i hd
+      | deliver e conn =>
+        cases e
+        · exact deliverC_dec w hd hd'
+        · exact deliverS_dec w conn hd hd'
+      | removeDead e =>
+        cases e
+        · exact rmC_dec w
+        · exact rmS_dec w
+      | accept => cases hm
+      | checkFull e => cases hm
+      | foreign e f => cases hm
+      | appWrite i b => cases hm
+      | appEof i => cases hm
+      | dstWrite i b => cases hm
+      | dstEof i => cases hm
+
+/-- Every move of the list changes the world it is applied to. -/
+def Effective : World → List Step → Prop
+  | _, [] => True
+  | w, st :: rest => w.step st ≠ w ∧ Effective (w.step st) rest
+
+/-- **Bounded work.**  From ANY world (reachable or not, any number of flows, any buffered data,
+faults in any callback), a sequence of moves of the select loop in which every move changes
+something is at most `worldMu w` long.  In particular, once the endpoints have stopped writing
+and no new connection arrives, the loop cannot go on changing the state for ever: after at most
+`worldMu w` effective moves it reaches a world that none of its moves changes — which, for a
+reachable alive world, is `Quiet` and therefore complete (`C02_no_stuck_state`,
+`C02_stuck_is_complete`): everything written has been delivered, every close passed on, finished
+flows shut on all four sides and unregistered. -/
+theorem C02_bounded_work (w : World) (steps : List Step) (hall : ∀ st ∈ steps, LoopMove st)
+    (heff : Effective w steps) : steps.length ≤ worldMu w := by
+  induction steps generalizing w with
+  | nil => exact Nat.zero_le _
+  | cons st rest ih =>
+    obtain ⟨hne, hrest⟩ := heff
+    have hd := loop_step_dec w st (hall st List.mem_cons_self)
+    have hlt : worldMu (w.step st) < worldMu w := by
+      rcases hd with h | ⟨_, h⟩
+      · exact h
+      · exact absurd h hne
+    have := ih (w.step st) (fun s hs => hall s (List.mem_cons_of_mem _ hs)) hrest
+    simp only [List.length_cons]
+    omega
+
+/-- The measure never goes up along the loop's own moves, effective or not. -/
+theorem C02_measure_monotone (w : World) (steps : List Step) (hall : ∀ st ∈ steps, LoopMove st) :
+    worldMu (w.run steps) ≤ worldMu w := by
+  induction steps generalizing w with
+  | nil => exact Nat.le_refl _
+  | cons st rest ih =>
+    have hd := (loop_step_dec w st (hall st List.mem_cons_self)).le
+    have := ih (w.step st) (fun s hs => hall s (List.mem_cons_of_mem _ hs))
+    simp only [World.run, List.foldl_cons] at this ⊢
+    omega
+
+/-- The measure of the reachable state of `demo2` (three bytes buffered at the server, an
+end-of-stream to pass on), and the effective moves that finish that direction. -/
+example :
+    worldMu (({} : World).run demo2) = 25 ∧
+    Effective (({} : World).run demo2) [.cb .server 0 { send := .sent 65536 }] ∧
+    worldMu ((({} : World).run demo2).run [.cb .server 0 { send := .sent 65536 }]) = 16 := by
+  refine ⟨by decide +kernel, ⟨?_, trivial⟩, by decide +kernel⟩
+  intro h
+  have := congrArg (fun w => w.flows.map fun f => f.dst.delivered) h
+  revert this
+  decide +kernel
 
 /-! ### The same at the level of the select loop: one pass in which the tunnel was readable -/
 
